@@ -451,19 +451,25 @@ func (g *Generator) generateTypeName(t reflect.Type) string {
 	return t.Name()
 }
 
-func (g *Generator) generateCycleSchemaRef(t reflect.Type, schema *openapi3.Schema) *openapi3.SchemaRef {
+func (g *Generator) generateCycleSchemaRef(t reflect.Type, schema *openapi3.Schema, seen ...reflect.Type) *openapi3.SchemaRef {
+	for _, s := range seen {
+		if s == t { // type L []L: a container that contains itself without a struct in between: elements stay unconstrained
+			return openapi3.NewSchemaRef("", openapi3.NewSchema())
+		}
+	}
+	seen = append(seen, t)
 	var typeName string
 	switch t.Kind() {
 	case reflect.Ptr:
-		return g.generateCycleSchemaRef(t.Elem(), schema)
+		return g.generateCycleSchemaRef(t.Elem(), schema, seen...)
 	case reflect.Slice:
-		ref := g.generateCycleSchemaRef(t.Elem(), schema)
+		ref := g.generateCycleSchemaRef(t.Elem(), schema, seen...)
 		sliceSchema := openapi3.NewSchema()
 		sliceSchema.Type = &openapi3.Types{"array"}
 		sliceSchema.Items = ref
 		return openapi3.NewSchemaRef("", sliceSchema)
 	case reflect.Map:
-		ref := g.generateCycleSchemaRef(t.Elem(), schema)
+		ref := g.generateCycleSchemaRef(t.Elem(), schema, seen...)
 		mapSchema := openapi3.NewSchema()
 		mapSchema.Type = &openapi3.Types{"object"}
 		mapSchema.AdditionalProperties = openapi3.AdditionalProperties{Schema: ref}
